@@ -8,7 +8,7 @@ cur = None
 import sys
 RES = sys.argv[1] if len(sys.argv) > 1 else '/tmp/mutant-results-final.txt'
 for l in open(RES):
-    m = re.match(r'=== /verif/seeded/((?:r2-)?C\d+-\d)', l)
+    m = re.match(r'=== /verif/seeded/((?:r[23]-)?[CTSPO]\d*-\d)', l)
     if m:
         cur = m.group(1); res[cur] = {}; continue
     m = re.match(r'(C\d+) exit=(\d)', l)
